@@ -103,6 +103,8 @@ class PubSub(object):
         self.handlers = {}
         self.plain = set()
         self.event = threading.Event()
+        self.listening = threading.Event()
+        self.nobody_listens = False
         self.closed = False
         client.server.subscribers[client.id] = self
 
@@ -118,13 +120,20 @@ class PubSub(object):
         h = self.handlers.get(channel)
         msg = {"type": "message", "pattern": None, "channel": channel.encode(), "data": data}
         if h is not None:
-            h(msg)
+            # as in the real client, handlers run inside listen() / get_message(): a subscription nobody reads from handles nothing
+            # (the reader is another thread: give it a moment to arrive, once)
+            if not self.listening.is_set() and not self.nobody_listens:
+                if not self.listening.wait(0.5):
+                    self.nobody_listens = True
+            if self.listening.is_set():
+                h(msg)
         elif channel in self.plain:
             self.queue = msg
             self.event.set()
 
     def listen(self):
         # parked until a message arrives on a channel that has no handler (that is how the store unblocks it)
+        self.listening.set()
         self.event.wait()
         yield getattr(self, "queue", None)
 
